@@ -107,7 +107,7 @@ def hkey(cls, t):
 
 
 # ------------------------------------------------------------------ the real side
-_R = {'enabled': False, 'installed': False, 'records': {}, 'order': [], 'calls': 0, 'undeclared': [], 'cap': 60000,
+_R = {'enabled': False, 'installed': False, 'records': {}, 'seen': set(), 'order': [], 'calls': 0, 'undeclared': [], 'cap': 60000,
       'docs': [], 'doc_cap': 20000}
 
 
@@ -214,12 +214,16 @@ def install(st):
         if classes.get(cname) is type(self) and len(_R['records']) < _R['cap']:
             _R['calls'] += 1
             try:
-                t = enc(self._data)
-                k = hkey(cname, t)
-                if k not in _R['records']:
-                    # the dict is modified later by the constructors (injections): keep a copy for iter_errors
-                    rec = {'cls': cname, 'doc': t, 'src': 'recorded', 'py': _dcopy(self._data)}
-                    _R['records'][k] = rec
+                # cheap duplicate test first (repr is C speed); the transport form only for a new value
+                h0 = hashlib.sha1((cname + '\x00' + repr(self._data)).encode('utf-8', 'surrogatepass')).digest()
+                if h0 not in _R['seen']:
+                    _R['seen'].add(h0)
+                    t = enc(self._data)
+                    k = hkey(cname, t)
+                    if k not in _R['records']:
+                        # the dict is modified later by the constructors (injections): keep a copy for iter_errors
+                        rec = {'cls': cname, 'doc': t, 'src': 'recorded', 'py': _dcopy(self._data)}
+                        _R['records'][k] = rec
             except Untransportable:
                 pass
             except RecursionError:
@@ -250,10 +254,10 @@ def install(st):
         d = orig_parse(text)
         if _R['enabled'] and len(_R['docs']) < _R['doc_cap']:
             try:
-                t = enc(d)
-                k = hkey('', t)
-                if k not in _R.setdefault('doc_keys', set()):
-                    _R['doc_keys'].add(k)
+                h0 = hashlib.sha1(('\x00doc' + repr(d)).encode('utf-8', 'surrogatepass')).digest()
+                if h0 not in _R['seen']:
+                    _R['seen'].add(h0)
+                    enc(d)                      # transportable at all?
                     _R['docs'].append(_dcopy(d))
             except (Untransportable, RecursionError):
                 pass
@@ -507,7 +511,7 @@ def _run(ctx, st):
     keys = list(recs)
     ctx.rng.shuffle(keys)
     keys.sort(key=lambda k: prio[recs[k]['src']])
-    budget = ctx.n(17.0, 240.0)
+    budget = ctx.n(14.0, 240.0)
     for i, k in enumerate(keys):
         r = recs[k]
         if time.time() - t0 > budget:
@@ -578,7 +582,7 @@ def _run(ctx, st):
         if impl != model:
             ctx.disagree('schema', {'cls': cname, 'doc': r['doc'], 'src': r['src']}, model, impl)
     ctx.cov['schema_stream_s'] = round(time.time() - t0, 1)
-    run_ctor(ctx, st, recs, pyvals, ctx.n(6.0, 60.0))
+    run_ctor(ctx, st, recs, pyvals, ctx.n(5.0, 60.0))
     run_re(ctx, st, tables, allnodes)
     run_eq(ctx, st, allnodes)
     ctx.cov['schema_streams_s'] = round(time.time() - t0, 1)
